@@ -4,6 +4,7 @@ Confirms a seeded defect (patch.diff + demo_test.go + README.md) in a scratch wo
 checks against /repo with the patch applied (reverted straight afterwards). Records the result under /verif/seeded/<name>/."""
 import json, os, re, shutil, subprocess, sys, time
 ROOT = "/verif"
+SNAP = os.environ.get("VERIF_SNAP", ROOT)  # a frozen copy of /verif to run the checks from (so the harness can be edited meanwhile)
 TC = "/root/go/pkg/mod/golang.org/toolchain@v0.0.1-go1.25.0.linux-amd64"
 env = dict(os.environ, GOTOOLCHAIN="local", GOFLAGS="-mod=mod", GOPROXY="off", GOSUMDB="off", GOROOT=TC, PATH=TC + "/bin:" + os.environ["PATH"])
 
@@ -85,7 +86,7 @@ def main():
         try:
             for cid in checks:
                 t0 = time.time()
-                pr = subprocess.run([os.path.join(ROOT, "vcheck"), "run", cid, tier], cwd=ROOT, env=envx, stdout=subprocess.PIPE, stderr=subprocess.STDOUT, text=True)
+                pr = subprocess.run([os.path.join(SNAP, "vcheck"), "run", cid, tier], cwd=SNAP, env=envx, stdout=subprocess.PIPE, stderr=subprocess.STDOUT, text=True)
                 rc, o = pr.returncode, pr.stdout
                 viol = [l for l in o.splitlines() if l.startswith("VIOLATION")]
                 sigs = [l.strip() for l in o.splitlines() if l.strip().startswith("signature:")]
